@@ -130,7 +130,7 @@ esl_cmd_index(const char *topcmd, const ESL_SUBCMD *sub, int argc, char **argv)
   /* Determine if the file was suitable for fast subseq lookup. */
   if (sqfp->data.ascii.bpl > 0 && sqfp->data.ascii.rpl > 0) {
     if ((status = esl_newssi_SetSubseq(ssifp, fh, sqfp->data.ascii.bpl, sqfp->data.ascii.rpl)) != eslOK) 
-      esl_fatal("Failed to set %s for fast subseq lookup.");
+      esl_fatal("Failed to set %s for fast subseq lookup.", sqfp->filename);
   }
 
   /* Save the SSI file to disk */
